@@ -198,6 +198,16 @@ def simulate_event(sess, step, store):  # noqa: C901
         else:
             Vused = sess.get("solve", step.get("solve_jit", jit))(p)
         kwargs["vf_arr_list"] = Vused
+    elif step.get("arbitrary") or step.get("pass_v"):
+        # the combined target also accepts value arrays: the arrays the caller passes are the arrays in use
+        src = sess.get("solve", jit)(p)
+        if step.get("arbitrary"):
+            shapes = [np.asarray(v).shape for v in src]
+            Vused = [jnp.asarray(np.array(a[:int(np.prod(s))], dtype=np.float32).reshape(s))
+                     for a, s in zip(step["arbitrary"], shapes, strict=True)]
+        else:
+            Vused = src
+        kwargs["vf_arr_list"] = Vused
     elif need_v:
         Vused = sess.get("solve", jit)(p)
     f = sess.get(target, jit)
